@@ -58,23 +58,33 @@ def replay(rec: Dict[str, Any]) -> List[Tuple[str, Dict[str, Any], str]]:
         if str(r) != rel:
             bad.append(f"ue={ue}:print-differs")
             break
-        b = JSONPointer(base, unicode_escape=ue)
-        for how in ("rel.to", "ptr.to"):
-            try:
-                res = r.to(b, unicode_escape=ue) if how == "rel.to" else b.to(rel, unicode_escape=ue)
-            except RelativeJSONPointerError:
-                if rec["ok"]:
-                    bad.append(f"{how}:refused")
-                continue
-            except BaseException as e:  # noqa: BLE001
-                bad.append(f"{how}:raised-{exc_family(e)}")
-                continue
-            if not rec["ok"]:
-                bad.append(f"{how}:not-refused")
-            elif str(res) != exp_text:
-                bad.append(f"{how}:wrong-pointer")
-            elif not (res == JSONPointer(exp_text, unicode_escape=ue)):
-                bad.append(f"{how}:not-equal-to-parsed-text")
+        b0 = JSONPointer(base, unicode_escape=ue)
+        # the same base three ways: parsed from text, built from its (string) tokens, and as returned by the
+        # identity relative pointer "0" (MC_RelPointer's Identity invariant says that is the same pointer)
+        base_toks = [t.replace("~1", "/").replace("~0", "~") for t in base.split("/")[1:]]
+        variants = [("", b0)]
+        try:
+            variants.append(("from-parts:", JSONPointer.from_parts(base_toks, unicode_escape=False)))
+            variants.append(("after-identity:", RelativeJSONPointer("0").to(b0)))
+        except BaseException as e:  # noqa: BLE001
+            bad.append(f"base-construction-raised-{exc_family(e)}")
+        for vname, b in variants:
+            for how in ("rel.to", "ptr.to"):
+                try:
+                    res = r.to(b, unicode_escape=ue) if how == "rel.to" else b.to(rel, unicode_escape=ue)
+                except RelativeJSONPointerError:
+                    if rec["ok"]:
+                        bad.append(f"{vname}{how}:refused")
+                    continue
+                except BaseException as e:  # noqa: BLE001
+                    bad.append(f"{vname}{how}:raised-{exc_family(e)}")
+                    continue
+                if not rec["ok"]:
+                    bad.append(f"{vname}{how}:not-refused")
+                elif str(res) != exp_text:
+                    bad.append(f"{vname}{how}:wrong-pointer")
+                elif not (res == JSONPointer(exp_text, unicode_escape=ue)):
+                    bad.append(f"{vname}{how}:not-equal-to-parsed-text")
         if bad:
             bad = [f"ue={ue}:" + x for x in bad]
             break
